@@ -473,6 +473,18 @@ impl<'a> Gen<'a> {
                 }
             }
             4 => {
+                if self.rng.chance(1, 3) {
+                    // callables as operands: equality is by function / by closure object, Len is 0
+                    let v1 = self.pick_var(fx, |v| matches!(v.k, K::Fn(..)));
+                    let v2 = self.pick_var(fx, |v| matches!(v.k, K::Fn(..)));
+                    if let (Some(a), Some(b)) = (v1, v2) {
+                        self.feat("callable_operand");
+                        let ops: [fn(Box<[Card; 2]>) -> CardBody; 4] =
+                            [CardBody::Equals, CardBody::NotEquals, CardBody::Less, CardBody::Add];
+                        let f = *self.rng.pick(&ops);
+                        return bin(f, rd(&a.name), rd(&b.name));
+                    }
+                }
                 let a = self.any_or_tab(fx, d1);
                 un(CardBody::Len, a)
             }
@@ -518,6 +530,11 @@ impl<'a> Gen<'a> {
                 if let Some(v) = self.pick_var(fx, |v| v.k == K::Tab) {
                     let k = *self.rng.pick(&IDKEYS);
                     self.feat("table.read_shorthand");
+                    if self.rng.chance(1, 6) {
+                        // a longer path: an error unless the intermediate value is a table
+                        let k2 = *self.rng.pick(&IDKEYS);
+                        return rd(&format!("{}.{}.{}", v.name, k, k2));
+                    }
                     return rd(&format!("{}.{}", v.name, k));
                 }
                 self.any_leaf(fx)
@@ -816,6 +833,10 @@ impl<'a> Gen<'a> {
                     un(CardBody::Len, t)
                 } else if self.reals && self.rng.chance(1, 6) {
                     CardBody::ScalarFloat(2.5).into()
+                } else if self.rng.chance(1, 10) {
+                    // nil counts as 0, a string as its length
+                    self.feat("repeat.count_not_a_number");
+                    if self.rng.chance(1, 2) { strc("bb") } else { CardBody::ScalarNil.into() }
                 } else {
                     int(self.rng.range(0, 4))
                 };
@@ -948,9 +969,17 @@ impl<'a> Gen<'a> {
                     Card::call_native("log1", vec![rd("never_set")])
                 }
                 3 => {
-                    // type error: a table operation on a number
+                    // type errors: table operations on a number, a call of a number, a bad row index
                     self.feat("type_error");
-                    bin(CardBody::IfTrue, self.cond(fx, 1), Card::get_property(int(3), strc("a")))
+                    let bad: Card = match self.rng.below(6) {
+                        0 => Card::get_property(int(3), strc("a")),
+                        1 => for_each(None, None, Some(self.fresh("e")), int(3), CardBody::Comment("x".into()).into()),
+                        2 => Card::dynamic_call(int(3), vec![]),
+                        3 => bin(CardBody::AppendTable, int(1), strc("a")),
+                        4 => bin(CardBody::Get, rd("t1"), int(-1)),
+                        _ => bin(CardBody::Get, rd("t1"), strc("a")),
+                    };
+                    bin(CardBody::IfTrue, self.cond(fx, 1), bad)
                 }
                 _ => CardBody::Comment("note".into()).into(),
             },
@@ -1184,6 +1213,7 @@ pub fn gen_program(rng: &mut Rng, feats: &mut BTreeMap<String, u64>, allow_shado
     let mut globals: Vec<Var> = (0..nglobals).map(|i| Var { name: format!("g{}", i), k: K::Any, ro: false, global: true }).collect();
     globals.push(Var { name: "t0".into(), k: K::Tab, ro: false, global: true });
     globals.push(Var { name: "t1".into(), k: K::Tab, ro: false, global: true });
+    globals.push(Var { name: "gf".into(), k: K::Fn(1, 0), ro: false, global: true });
     let reals = rng.chance(1, 4);
     let shadow = allow_shadow && rng.chance(1, 5);
     let budget = 60 + rng.below(200) as i32;
@@ -1211,8 +1241,15 @@ pub fn gen_program(rng: &mut Rng, feats: &mut BTreeMap<String, u64>, allow_shado
         let e = if g.rng.chance(1, 4) { g.str_lit() } else { g.int_lit() };
         cards.push(Card::set_global_var(format!("g{}", i), if i % 3 == 0 { int(i as i64) } else { e }));
     }
+    cards.push(Card::set_global_var("gf", Card::function_value(g.call_name(0, 1))));
     cards.push(Card::set_global_var("t0", Card::from(CardBody::CreateTable)));
     cards.push(Card::set_global_var("t1", Card::from(CardBody::Array(vec![int(3), int(1), int(2)]))));
+    if std::env::var("C01_UNSET").is_ok() && g.rng.chance(1, 3) {
+        // `low` gets the first global slot at compile time and is never assigned
+        cards.insert(0, bin(CardBody::IfTrue, int(0), Card::call_native("log1", vec![rd("low")])));
+        cards.push(Card::call_native("log1", vec![rd("low")]));
+        g.feat("read_unset_global_low_slot");
+    }
     let n = 3 + g.rng.below(8) as usize;
     cards.extend(g.stmts(&mut fx, n, true, 3));
     // order inside a module: random position of main among the functions of the root
